@@ -242,12 +242,7 @@ func init() {
 	register("C16", func() *Check {
 		prog := c16Program()
 		pr := hs.Print(prog)
-		maxLen := func(tier string) int {
-			if tier == "thorough" {
-				return 3
-			}
-			return 2
-		}
+		maxLen := func(tier string) int { return 2 }
 		mk := func(name string, inspect bool, bounds map[string]int, lenOf func(string) int) Scenario {
 			return Scenario{
 				Name:  name,
@@ -277,11 +272,12 @@ func init() {
 		return &Check{ID: "C16", Scenarios: []Scenario{
 			mk("spawnsync-histories", false, map[string]int{"quick": 2, "thorough": 3}, maxLen),
 			mk("inspected-histories", true, map[string]int{"quick": 1, "thorough": 2}, maxLen),
-			mk("long-histories", false, map[string]int{"quick": 1, "thorough": 1}, func(tier string) int {
+			mk("long-histories", false, map[string]int{"quick": 1, "thorough": 2}, func(string) int { return 3 }),
+			mk("longer-histories-default-schedule", false, map[string]int{"quick": 0, "thorough": 0}, func(tier string) int {
 				if tier == "thorough" {
 					return 4
 				}
-				return 3
+				return 1
 			}),
 		}}
 	})
